@@ -30,6 +30,38 @@ def sum_chain_exact(texts):
     return True
 
 
+def must_reject(rt):
+    """the rejection classes of the property statement that can be read off one written transaction"""
+    total = D(0)
+    exact = True
+    for p in rt["posts"]:
+        amt = D(p["amount"])
+        if amt == 0:
+            return "zero_posting"
+        u = p.get("unit") or {}
+        cl = u.get("closing")
+        if cl:
+            if cl["c"] == u.get("comm"):
+                return "price_same_comm"
+            v = D(cl["v"])
+            if cl["k"] == "@":
+                if v < 0:
+                    return "neg_unit_price"
+                total += amt * v
+            else:
+                if (v < 0) != (amt < 0):
+                    return "total_sign"
+                total += v
+        else:
+            total += amt
+        if not common.dec_fits(total):
+            exact = False
+    if rt.get("last") and exact and total == 0 and sum_chain_exact([x["amount"] for x in rt["posts"]]) \
+            and not any((x.get("unit") or {}).get("closing") for x in rt["posts"]):
+        return "implicit_zero"
+    return None
+
+
 class C01(PropBase):
     id = "C01"
 
@@ -53,8 +85,9 @@ class C01(PropBase):
         return out
 
     def mk(self, rng, cfg, txns, kind):
-        text = common.render_journal(txns, common.gen_layout(rng))
-        return {"op": "run", "kind": kind, "cfg": cfg, "txns": txns, "text": text, "want": ["txns"]}
+        layout = common.gen_layout(rng)
+        text = common.render_journal(txns, layout)
+        return {"op": "run", "kind": kind, "cfg": cfg, "txns": txns, "text": text, "layout": layout, "want": ["txns"]}
 
     def impl_case(self, case):
         return {k: v for k, v in case.items() if k != "txns"}
@@ -134,11 +167,12 @@ class C01(PropBase):
                     return {"sig": "F17:inexact-arithmetic", "what": "implicit posting %s is not the exact negated sum %s (rounded partial sum)" % (lp["amount"], -others), "txn": t}
                 if D(lp["amount"]) != -others or lp["comm"] != lp["txn_comm"]:
                     return {"sig": "implicit-last", "what": "implicit posting %s %s, expected %s" % (lp["amount"], lp["comm"], -others), "txn": t}
-        # a journal with an injected fault of a class the property names must not be accepted
+        # a journal that contains a transaction of a class the property names must not be accepted
+        # (judged from the written content, not from the generator's tag, so that shrinking stays sound)
         for rt in case.get("txns", []):
-            f = rt.get("fault")
-            if f in ("zero_posting", "price_same_comm", "neg_unit_price", "total_sign", "implicit_zero"):
-                return {"sig": "accepted-fault:" + f, "what": "journal with a %s fault was accepted" % f}
+            f = must_reject(rt)
+            if f:
+                return {"sig": "accepted-fault:" + f, "what": "journal with a %s transaction was accepted" % f}
         return None
 
     def nontrivial(self, case, impl):
